@@ -12,6 +12,7 @@
 #  error tag, a token-soup stream for the scanners, and single-character probes of the whitespace / case-folding classes.
 import ast
 import itertools
+import importlib
 import lib
 
 THEOREM = ('C08_cleanup_invariant / C08_literals_opaque / C08_combine_verbatim / C08_token_spelling_partial (Props/C08.v); '
@@ -808,9 +809,13 @@ def eval_internal(c, code):
     g = (lib.run_impl_py('c08', [c], shards=1) if c['lang'] == 'py' else lib.run_impl_js('c08', [c], shards=1))[0]
     g = canon_impl_internal(g, c['lang'])
     return c, expected_internal(m, g, c['lang'], c), g
+    # the two sides of an ON condition: resolve_join_variables of both ports against JoinVars.v (the swap theorem's model)
+    importlib.import_module('props.joinvars').run(ctx, THEOREM + ' ; C08_join_sides_swap (JoinVars.v)')
 
 
 def replay(ctx, case):
+    if case.get('part') == 'joinvars':
+        return importlib.import_module('props.joinvars').replay(ctx, case, THEOREM)
     lang = case.get('lang', 'py')
     code = 0 if lang == 'py' else 1
     kind = case.get('kind')
